@@ -115,7 +115,15 @@ func checkC17(c c17Case) *evid.Fail {
 			}
 			// probe after every step: registrations must not disturb what earlier ones answer elsewhere
 			model := c17Model(c.Ops[:i+1])
-			for _, ch := range c.Probes {
+			// long histories: a rotating sample of the probes per step, all of them every 64 steps and at the end
+			stride := 1
+			if len(c.Ops) > 40 && (i+1)%64 != 0 && i != len(c.Ops)-1 {
+				stride = len(c.Probes)/48 + 1
+			}
+			for j, ch := range c.Probes {
+				if stride > 1 && (j+i)%stride != 0 {
+					continue
+				}
 				got := m.Lookup(ch)
 				want := c17RefOf(model(ch))
 				if got != want {
@@ -274,7 +282,11 @@ func TestC17_Rapid(t *testing.T) {
 		}
 		var ops []c17Op
 		for i := 0; i < n; i++ {
-			switch rapid.IntRange(0, 9).Draw(rt, "kind") {
+			kd := rapid.IntRange(0, 9).Draw(rt, "kind")
+			if n > 12 && kd <= 1 && rapid.IntRange(0, 39).Draw(rt, "rareclear") != 0 {
+				kd = 5 // long histories: Clear / AddDefaultInterval are rare, so that hundreds of registrations pile up
+			}
+			switch kd {
 			case 0:
 				ops = append(ops, c17Op{2, 0, 0, 0})
 			case 1:
@@ -292,6 +304,7 @@ func TestC17_Rapid(t *testing.T) {
 			probes = append(probes, o.Start, o.End, o.Start-1, o.End+1)
 			// code points beyond the BMP whose low 16 bits fall into the range
 			probes = append(probes, 0x10000+o.Start, 0x10000+o.End, 0x20000+(o.Start+o.End)/2, 0x100000+o.Start)
+			probes = append(probes, (o.Start+o.End)/2, o.Start+(o.End-o.Start)/3, o.End-(o.End-o.Start)/3)
 		}
 		for i := 0; i < 6; i++ {
 			probes = append(probes, rune(rapid.IntRange(-2, 0x11000).Draw(rt, "probe")))
